@@ -351,3 +351,51 @@ func Fault(r *rand.Rand, toks []GTok) (text string, off int, class string, ok bo
 	}
 	return
 }
+
+// LongLines is the "long line" family: texts whose first line is longer than 2^16 characters (a comment, a
+// run of blanks and tabs, a single-quoted string of multi-byte characters, an unquoted token — and, in the
+// thorough tier, a double-quoted string, which costs the list-based model half a minute) followed on the
+// same line by more statements, a stray `}`, an undefined escape, an unterminated quote, a quoted keyword,
+// a missing `;`; and texts with more than 2^16 lines.  Columns and lines beyond 65535 must come out whole.
+// The faults carry the offset of the offending token / backslash / opener for the C16 oracle.
+func LongLines(r *rand.Rand, thorough bool) []Case {
+	n := func() int { return 66000 + r.Intn(4000) }
+	pads := []string{
+		"/*" + strings.Repeat("c", n()) + "*/ ",
+		strings.Repeat(" ", n()/2) + strings.Repeat("\t", n()/2),
+		"a '" + strings.Repeat("é", n()) + "'; ",
+		"a " + strings.Repeat("x", n()) + "; ",
+		"a 'p' + '" + strings.Repeat("q", n()) + "' { } /* é */\t",
+		strings.Repeat("\n", n()) + "\t/* c */ ",
+		strings.Repeat("x;\r\n", n()) + " é ",
+	}
+	if thorough {
+		pads = append(pads, "a \""+strings.Repeat("s", n())+"\"; ")
+	}
+	type tail struct {
+		text  string
+		off   int
+		class string
+	}
+	tails := []tail{
+		{"leaf x { type string; } leaf y;", 0, ""},
+		{"leaf x { type 'string'; } }", 26, "rbrace"},
+		{"leaf x { é \"a\\q\"; }", 14, "esc"},
+		{"leaf x { b 'c'; } leaf 'unterminated", 23, "sq"},
+		{"leaf x; \"leaf\" y;", 8, "kw"},
+		{"leaf x; 'le' + 'af' y;", 8, "kw"},
+		{"leaf x y z;", 9, "semi"},
+		{"leaf x { type string; } /* open", 24, "cmt"},
+	}
+	var out []Case
+	for _, p := range pads {
+		for _, t := range tails {
+			c := Case{Text: p + t.text, Stream: "long_line"}
+			if t.class != "" {
+				c.FaultOff, c.FaultClass = len(p)+t.off, t.class
+			}
+			out = append(out, c)
+		}
+	}
+	return out
+}
